@@ -357,14 +357,28 @@ def correspond(ctx, scale):
               ('vq-heads-sep-cosine', lambda: VectorQuantize(dim=4, codebook_size=5, heads=2, codebook_dim=2, separate_codebook_per_head=True, use_cosine_sim=True), 4, 5, 1, True),
               ('rvq', lambda: ResidualVQ(dim=3, num_quantizers=3, codebook_size=6), 3, 6, 1, False),
               ('grvq', lambda: GroupedResidualVQ(dim=4, groups=2, num_quantizers=2, codebook_size=5), 4, 5, 2, False)]
+    # live hyper-parameter SCHEDULES on the long-lived module (round 11, seed C13-k): a commitment weight warmed up from 0 (cross-entropy and MSE
+    # commitment), a temperature annealed to 0 - what the returned tensors look like does not depend on the history of these attributes
+    def _warm(attr, values):
+        def sched(q_, step_):
+            setattr(q_, attr, values[min(step_, len(values) - 1)])
+        return sched
+    pad_mk += [('vq-ce-commit-warmup', lambda: VectorQuantize(dim=4, codebook_size=5, commitment_use_cross_entropy_loss=True, commitment_weight=0.), 4, 5, 0, True, _warm('commitment_weight', [0., 0., 0.25, 0.25, 1.0, 1.0])),
+               ('vq-heads-ce-commit-warmup', lambda: VectorQuantize(dim=4, codebook_size=5, heads=2, codebook_dim=2, commitment_use_cross_entropy_loss=True, commitment_weight=0.), 4, 5, 1, True, _warm('commitment_weight', [0., 0.5, 0.5, 0., 0.25, 0.25])),
+               ('vq-heads-sep-ce-commit-cooldown', lambda: VectorQuantize(dim=4, codebook_size=5, heads=2, codebook_dim=2, separate_codebook_per_head=True, commitment_use_cross_entropy_loss=True, commitment_weight=1.), 4, 5, 1, True, _warm('commitment_weight', [1., 1., 0., 0., 0.25, 0.])),
+               ('vq-mse-commit-warmup', lambda: VectorQuantize(dim=4, codebook_size=5, commitment_weight=0.), 4, 5, 0, True, _warm('commitment_weight', [0., 0., 0.25, 0.25, 1.0, 1.0]))]
     idx_shape_ref = {}
-    for pname, mk, dim, K, extra_axes, has_lens in pad_mk:
+    for pad_entry in pad_mk:
+        pname, mk, dim, K, extra_axes, has_lens = pad_entry[:6]
+        sched_p = pad_entry[6] if len(pad_entry) > 6 else None
         q = mk()
         b, n = 3, 6
         lens_buf = torch.zeros(b, dtype=torch.long)
         mask_buf = torch.zeros(b, n, dtype=torch.bool)
         for step in range(6):
             q.train(step % 2 == 0)
+            if sched_p is not None:
+                sched_p(q, step)
             lens_now = torch.tensor([_r.Random(1000 * step + i + len(pname)).randint(1, n) for i in range(b)])
             if step >= 4:
                 lens_now = torch.zeros(b, dtype=torch.long)        # degenerate: the whole batch is padding (training step 4, evaluation step 5)
